@@ -32,13 +32,29 @@ type cfgWorld struct {
 	portA, portB, portD    int
 }
 
+var (
+	portMu     sync.Mutex
+	portsGiven = map[int]bool{}
+)
+
+// freePort: a port nobody listens on right now and that this process has not handed out before
+// (worlds run in parallel; two of them must never be told the same number).
 func freePort() int {
-	l, err := net.Listen("tcp4", "127.0.0.1:0")
-	if err != nil {
-		return 0
+	portMu.Lock()
+	defer portMu.Unlock()
+	for i := 0; i < 50; i++ {
+		l, err := net.Listen("tcp4", "127.0.0.1:0")
+		if err != nil {
+			return 0
+		}
+		p := l.Addr().(*net.TCPAddr).Port
+		l.Close()
+		if !portsGiven[p] {
+			portsGiven[p] = true
+			return p
+		}
 	}
-	defer l.Close()
-	return l.Addr().(*net.TCPAddr).Port
+	return 0
 }
 
 func newCfgWorld() *cfgWorld {
@@ -148,8 +164,21 @@ func (w *cfgWorld) runCfg(assigns []cfgAssign) string {
 			return "exit"
 		default:
 		}
-		for tag, p := range map[string]int{"A": w.portA, "B": w.portB} {
-			_ = tag
+		// the server says itself where it listens (text or JSON log); only a port it named is probed, so a
+		// foreign listener that happens to sit on the other candidate port (parallel runs) is never mistaken for it
+		mu.Lock()
+		logNow := so.String()
+		mu.Unlock()
+		for _, p := range []int{w.portA, w.portB} {
+			named := false
+			for _, ln := range strings.Split(logNow, "\n") {
+				if strings.Contains(ln, "Listening...") && !strings.Contains(ln, "Debug") && strings.Contains(ln, fmt.Sprintf("127.0.0.1:%d", p)) {
+					named = true
+				}
+			}
+			if !named {
+				continue
+			}
 			c, err := net.DialTimeout("tcp4", fmt.Sprintf("127.0.0.1:%d", p), 100*time.Millisecond)
 			if err == nil {
 				c.Close()
